@@ -4,7 +4,7 @@
    +sendDataV2, one direction of a transfer).  All statements are for protocol >= 3 (cP3 cf = true):
    older protocols have no pause handling. *)
 From Trzsz Require Import Base.Bytes Gen.Consts Gen.Skel_pause Gen.Skel_pause2 Model.Pause Model.PauseDown Model.PauseProbe
-  Proofs.Pause Proofs.PauseComp Proofs.PauseSim Proofs.PauseHang Proofs.PauseDown Proofs.PauseDownSim Proofs.PauseFinal Proofs.PauseProbe.
+  Proofs.Pause Proofs.PauseComp Proofs.PauseSim Proofs.PauseHang Proofs.PauseDown Proofs.PauseDownSim Proofs.PauseFinal Proofs.PauseFinalSim Proofs.PauseProbe.
 From Coq Require Import ZArith.
 
 (* the source still has the control structure the model transcribes (regenerated on every run) *)
@@ -293,8 +293,8 @@ Qed.
    at most P ticks, P + one sleep < T (a new pause beginning MORE than one sleep after the previous resume, so that
    our reader gets through the progress acks that piled up) and FP < T: no timeout on either side, and whenever
    nothing can move, no episode is open and the peer's disk has everything, we have seen the final ack and the peer
-   has the MD5 line.  (Stated for the machine in which our reader is replaced by its abstraction -- the one
-   C18_down_simulation shows sound.) *)
+   has the MD5 line.  (Stated for the machine in which our reader is replaced by its abstraction; C18_up_final_short_pause below is
+   the same for the reader machine itself.) *)
 Theorem C18_up_final_short_pause_abs : forall T' SL GL FP P,
   (1 <= SL)%nat -> (1 <= FP)%nat -> (FP < S T')%nat -> (P + SL < S T')%nat ->
   forall xs u, urun (mkCfg (S T') SL GL true) FP P (uinit (mkCfg (S T') SL GL true) FP) xs = Some u ->
@@ -303,10 +303,28 @@ Theorem C18_up_final_short_pause_abs : forall T' SL GL FP P,
 Proof. exact up_final_short_pause. Qed.
 Print Assumptions C18_up_final_short_pause_abs.
 
+(* the same with our reader as the reader machine [rstep] itself ([udstep]), carried over by a simulation as in
+   the data phases *)
+Definition C18_up_final_short_pause_full : Prop := forall T' SL GL FP P,
+  (1 <= SL)%nat -> (1 <= FP)%nat -> (FP < S T')%nat -> (P + SL < S T')%nat ->
+  forall xs s, udrun (mkCfg (S T') SL GL true) FP P (udinit (mkCfg (S T') SL GL true) FP) xs = Some s ->
+  udErr s = false /\ udBadPM s = false /\
+  (ud_quiescent s = true -> udEp s = EpNone -> udSaved s = true -> udFin s = true /\ udPM s = PMDone).
+
+Theorem C18_up_final_short_pause : C18_up_final_short_pause_full.
+Proof. intros T' SL GL FP P H1 H2 H3 H4. exact (up_final_short_pause_conc T' SL GL FP P H1 H2 H3 H4). Qed.
+Print Assumptions C18_up_final_short_pause.
+
+Theorem C18_up_final_simulation : forall T' SL GL FP P s x s',
+  UDInv s -> udstep (mkCfg (S T') SL GL true) FP P s x = Some s' ->
+  exists u', ustep (mkCfg (S T') SL GL true) FP P (uabs s) x = Some u' /\ (uBad u' = false -> u' = uabs s' /\ UDInv s').
+Proof. exact up_final_sim_step. Qed.
+Print Assumptions C18_up_final_simulation.
+
 (* tight: a pause with P + sleep = T that begins before the peer's disk catches up makes the peer give up waiting
    for the MD5 line (T = 5, sleep 1, poll 2, pause 4) *)
-Example C18_up_final_long_pause_times_out : exists xs u,
-  urun (mkCfg 5 1 1 true) 2 4 (uinit (mkCfg 5 1 1 true) 2) xs = Some u /\ uBad u = true /\ (4 + 1 = 5)%nat.
+Example C18_up_final_long_pause_times_out : exists xs s,
+  udrun (mkCfg 5 1 1 true) 2 4 (udinit (mkCfg 5 1 1 true) 2) xs = Some s /\ udBadPM s = true /\ (4 + 1 = 5)%nat.
 Proof.
   exists [UPause; UFACall; USaved; UTick; UTick; UTick; UTick; UResume; UTick].
   eexists. split; [vm_compute; reflexivity|]. split; reflexivity.
@@ -324,10 +342,26 @@ Theorem C18_down_final_never_times_out_abs : forall T' SL GL FP,
 Proof. exact down_final_never_times_out. Qed.
 Print Assumptions C18_down_final_never_times_out_abs.
 
+(* the same with the peer's reader as the reader machine and the gate of Model/Pause.v ([vdstep]) *)
+Definition C18_down_final_never_times_out_full : Prop := forall T' SL GL FP,
+  (1 <= GL)%nat -> (1 <= FP)%nat -> (GL < S T')%nat -> (FP < S T')%nat ->
+  forall xs s, vdrun (mkCfg (S T') SL GL true) FP vdinit xs = Some s ->
+  vdErr s = false /\ (vdK s = K2Done -> vd_quiescent s = true -> vdPfin s = true).
+
+Theorem C18_down_final_never_times_out : C18_down_final_never_times_out_full.
+Proof. intros T' SL GL FP H1 H2 H3 H4. exact (down_final_never_times_out_conc T' SL GL FP H1 H2 H3 H4). Qed.
+Print Assumptions C18_down_final_never_times_out.
+
+Theorem C18_down_final_simulation : forall T' SL GL FP s x s',
+  VDInv s -> vdstep (mkCfg (S T') SL GL true) FP s x = Some s' ->
+  exists v', vstep (mkCfg (S T') SL GL true) FP (vabs s) x = Some v' /\ (vBad v' = false -> v' = vabs s' /\ VDInv s').
+Proof. exact down_final_sim_step. Qed.
+Print Assumptions C18_down_final_simulation.
+
 (* both conditions are needed: a gate sleep, or a poll interval, as long as the timeout *)
 Example C18_down_final_conditions_needed :
-  (exists xs v, vrun (mkCfg 4 1 4 true) 2 vinit xs = Some v /\ vBad v = true) /\
-  (exists xs v, vrun (mkCfg 4 1 1 true) 4 vinit xs = Some v /\ vBad v = true).
+  (exists xs v, vdrun (mkCfg 4 1 4 true) 2 vdinit xs = Some v /\ vdErr v = true) /\
+  (exists xs v, vdrun (mkCfg 4 1 1 true) 4 vdinit xs = Some v /\ vdErr v = true).
 Proof.
   split.
   - exists [VPause; VKCall; VPFCall; VTick; VTick; VTick; VTick]. eexists. split; [vm_compute; reflexivity|reflexivity].
